@@ -88,10 +88,10 @@ Definition ex_oracles := mkOracles (fun n _ => negb (n =? 0)) (fun _ _ _ => true
 Definition ex_queues := [mkQueue 1 1 0; mkQueue 2 1 1; mkQueue 3 1 1; mkQueue 5 1 3].
 Definition ex_job : job :=
   mkJob 2001
-    [mkTask 1 2 None (mkTmpl 1 true 0) [mkPolicy 2 2 [3] None; mkPolicy 1 0 [] (Some 137)] 0 None None;
+    [mkTask 1 2 None (mkTmpl 1 true 0) [mkPolicy 2 2 [3; 2] None 30; mkPolicy 1 0 [] (Some 137) 0] 0 None None;
      mkTask 0 4 None (mkTmpl 2 false 0) [] 0 (Some ([1], 1)) (Some (mkPart 2 2 1 0));
      mkTask 5 1 (Some 1) (mkTmpl 1 false 2) [] 2 (Some ([1; 1001], 0)) None]
-    0 [mkPolicy 7 1 [] None] [mkVol 1 2 None; mkVol 2 0 (Some 1)]
+    0 [mkPolicy 7 1 [1] None 0] [mkVol 1 2 None; mkVol 2 0 (Some 1)]
     (Some [mkPlugin 5 0 0]) 0 0 0 0 1 2.
 Example C09_nonvacuous :
   validate_create ex_oracles ex_queues (prefill ex_job) = true /\
